@@ -26,6 +26,7 @@ type modeEv struct {
 	Reach int    `json:"reach,omitempty"` // 0 unknown 1 public 2 private
 	Old   int    `json:"old,omitempty"`   // which held stream
 	Reg   bool   `json:"reg,omitempty"`   // open: the stream's connection is listed by the network
+	Ahead int    `json:"ahead,omitempty"` // open: streams the connection lists before the inbound one: bit 0 a request stream of the node's own (outbound, DHT protocol), bit 1 an inbound stream of another protocol
 	Burst []int  `json:"burst,omitempty"` // reach: further reachability values emitted GapMs apart right after the first (the last one counts)
 	GapMs int    `json:"gap_ms,omitempty"`
 	Cur   []bool `json:"cur,omitempty"` // addrs: the host's current addresses after the update (true: a public one, false: a private one)
@@ -87,7 +88,7 @@ func c13Check() verifsim.Check[modeSc] {
 				case 6:
 					return modeEv{Ev: "addrs", Cur: rapid.SliceOfN(rapid.Bool(), 0, 3).Draw(t, "cur"), Rem: rapid.SliceOfN(rapid.Bool(), 0, 2).Draw(t, "rem")}
 				case 3:
-					return modeEv{Ev: "open", Reg: rapid.Bool().Draw(t, "reg")}
+					return modeEv{Ev: "open", Reg: rapid.Bool().Draw(t, "reg"), Ahead: rapid.SampledFrom([]int{0, 1, 2, 3, 1}).Draw(t, "ahead")}
 				case 4:
 					return modeEv{Ev: "req-new"}
 				default:
@@ -98,7 +99,7 @@ func c13Check() verifsim.Check[modeSc] {
 		},
 		Run: func(t *testing.T, sc modeSc) (res verifsim.Result) {
 			pp := ppool()
-			switches, bursts, addrEvents := 0, 0, 0
+			switches, bursts, addrEvents, mixedConns := 0, 0, 0, 0
 			out := verifsim.Bubble(t, func() {
 				h := verifnet.NewHost(peer.ID(pp.IDs[1]), []ma.Multiaddr{ma.StringCast("/ip4/8.1.1.1/tcp/1")})
 				defer h.Close()
@@ -126,7 +127,7 @@ func c13Check() verifsim.Check[modeSc] {
 					}
 				}()
 				sender := peer.ID(pp.IDs[9])
-				open := func(registered bool) *heldStream {
+				open := func(registered bool, ahead int) *heldStream {
 					hd := h.Handler(proto1)
 					if hd == nil {
 						return nil
@@ -136,6 +137,13 @@ func c13Check() verifsim.Check[modeSc] {
 						conn = h.Net().AddConn(sender, ma.StringCast("/ip4/8.9.9.9/tcp/1"))
 					} else {
 						conn = (&verifnet.Network{}).NewDetachedConn(h.ID(), sender)
+					}
+					if ahead&1 != 0 {
+						verifnet.NewStreamPair(conn, nil, proto1) // the node's own request stream to that peer
+						mixedConns++
+					}
+					if ahead&2 != 0 {
+						verifnet.NewStreamPair(nil, conn, "/other/1.0.0")
 					}
 					cli, srv := verifnet.NewStreamPair(nil, conn, proto1)
 					hs := &heldStream{cli: cli, registered: registered, done: make(chan struct{})}
@@ -182,7 +190,7 @@ func c13Check() verifsim.Check[modeSc] {
 						emAddr.Emit(event.EvtLocalAddressesUpdated{Diffs: true, Current: mk(ev.Cur, 1, event.Maintained), Removed: mk(ev.Rem, 2, event.Removed)})
 						addrEvents++
 					case "open":
-						if hs := open(ev.Reg); hs != nil {
+						if hs := open(ev.Reg, ev.Ahead); hs != nil {
 							held = append(held, hs)
 						}
 					}
@@ -208,7 +216,7 @@ func c13Check() verifsim.Check[modeSc] {
 					}
 					switch ev.Ev {
 					case "req-new":
-						hs := open(true)
+						hs := open(true, 0)
 						if wantServer {
 							if hs == nil {
 								res.Fail("server-serves", "C13/server/no-handler", "%s: server mode but no handler", step)
@@ -259,6 +267,9 @@ func c13Check() verifsim.Check[modeSc] {
 			}
 			if addrEvents > 0 {
 				res.Class("address-update")
+			}
+			if mixedConns > 0 && switches > 0 {
+				res.Class("demotion-with-own-request-stream-listed-first")
 			}
 			res.Class(fmt.Sprintf("mode-%d", sc.Mode))
 			return
